@@ -557,6 +557,10 @@ func (fs *fileSystem) Rename(oldname, newname string) error {
 			// oldinode cannot become a descendant of itself.
 			return oldinode, ErrInvalidArgument
 		}
+		if newdirf.inode == olddirf.inode && newname == oldname {
+			// Renaming an entry to itself is a no-op.
+			return oldinode, nil
+		}
 		if oldinode.FS() != cfs && newdirf.inode != olddirf.inode {
 			// moving a mount point to a different parent
 			// is not (yet) supported.
